@@ -1,15 +1,16 @@
 import Asn1Model.X690
 /-
-  The reference BER decoder of X690.lean minus the two places where asn1tools' BER decoder is
-  known NOT to follow X.690 (C04 deviation predicates).  `decVS` accepts exactly what `decV`
+  The reference BER decoder of X690.lean minus the one place where asn1tools' BER decoder is
+  known NOT to follow X.690 (C04 deviation predicate).  `decVS` accepts exactly what `decV`
   accepts, with the same value, except that it rejects
 
   * `dirtyUnusedBits`: a BIT STRING encoding whose unused bits are not all zero (allowed in BER,
-    8.6.2.4; the code returns the unused bits as part of the value);
-  * `indefiniteExtensibleNoAddition`: an indefinite-length encoding of a SEQUENCE whose type has
-    extension additions while none of them is present in the encoding (KNOWN DEFECT of ber.py: the
-    root `decode_members` loop consumes the end-of-contents octets and the additions loop then looks
-    for the end of the contents again, beyond the SEQUENCE).
+    8.6.2.4; the code returns the unused bits as part of the value).
+
+  (A second deviation, `indefiniteExtensibleNoAddition` -- an indefinite-length SEQUENCE whose type
+  has extension additions, none of them present, was rejected by ber.py -- was a genuine defect and
+  has been repaired in /repo commit 300e5ac; it is no longer excluded here, see
+  `C04.fixed_indefinite_extensible_accepted`.)
 
   `berDeviates t bs` is the decidable deviation predicate: accepted by the reference decoder but
   not by the strict one.
@@ -47,15 +48,13 @@ mutual
       match stripPrefix (header (.sequence root e adds) tg true) bs with
       | none => none
       | some r =>
-        constructedContentsI (fun indefinite c =>
+        constructedContentsI (fun _ c =>
           match decComponentsS root 0 fuel c with
           | none => none
           | some (fs1, c1) =>
-            if indefinite && adds.length != 0 && startsEOC c1 then none       -- indefiniteExtensibleNoAddition
-            else
-              match decComponentsS adds root.length fuel c1 with
-              | none => none
-              | some (fs2, c2) => some (Val.record (fs1 ++ fs2), c2)) r
+            match decComponentsS adds root.length fuel c1 with
+            | none => none
+            | some (fs2, c2) => some (Val.record (fs1 ++ fs2), c2)) r
     | .sequenceOf e c, tg, fuel, bs =>
       match stripPrefix (header (.sequenceOf e c) tg true) bs with
       | none => none
@@ -116,13 +115,13 @@ def berDecodeRefStrict (t : Ty) (bs : Bytes) : Option Val :=
   | some (v, []) => some v
   | _ => none
 
-/-- C04 deviation predicate: a valid BER encoding (per the reference decoder) that runs into one of
-the two named deviations of the code -/
+/-- C04 deviation predicate: a valid BER encoding (per the reference decoder) that runs into the
+named deviation of the code -/
 def berDeviates (t : Ty) (bs : Bytes) : Bool :=
   (berDecodeRef t bs).isSome && (berDecodeRefStrict t bs).isNone
 
 example : berDeviates (.sequence (.cons "a" .mandatory .boolean .nil) true (.cons "b" .optional (.integer ⟨none, none, false⟩) .nil))
-    [0x30, 0x80, 0x80, 0x01, 0xff, 0x00, 0x00] = true := by rfl
+    [0x30, 0x80, 0x80, 0x01, 0xff, 0x00, 0x00] = false := by rfl
 example : berDeviates (.bitString ⟨0, none, false⟩) [0x03, 0x02, 0x05, 0xff] = true := by rfl
 example : berDeviates (.bitString ⟨0, none, false⟩) [0x23, 0x80, 0x03, 0x02, 0x05, 0xe0, 0, 0] = false := by rfl
 
